@@ -196,6 +196,23 @@ int main(int argc, char** argv)
                     out("L ok");
                 }
             }
+            else if (c == "ASSIGNSYM" || c == "MOVEASSIGNSYM")
+            {
+                int dst = std::atoi(w[1].c_str()), src = std::atoi(w[2].c_str());
+                if (!syms.count(src) || !syms.count(dst))
+                    out("L skip");
+                else
+                {
+                    if (c == "ASSIGNSYM")
+                        *syms[dst] = *syms[src];
+                    else
+                    {
+                        sym_t tmp(*syms[src]);
+                        *syms[dst] = std::move(tmp);
+                    }
+                    out("L ok");
+                }
+            }
             else if (c == "DROPSYM")
             {
                 syms.erase(std::atoi(w[1].c_str()));
